@@ -153,6 +153,8 @@ func ErrClass(err error) string {
 		return "mgr:other:" + inner
 	}
 	switch {
+	case errors.Is(err, dir.ErrDecode):
+		return "decodeErr"
 	case errors.Is(err, io.EOF):
 		return "EOF"
 	case errors.Is(err, dir.ErrTransport), errors.Is(err, io.ErrClosedPipe):
@@ -220,6 +222,8 @@ func (h *Handler) HandleRPC(stream drpc.Stream, rpc string) error {
 			set(ErrClass(stream.MsgSend(&dir.Msg{Data: Pad(a[6:], 1)}, h.w.Enc)))
 		case strings.HasPrefix(a, "send2:"):
 			set(ErrClass(stream.MsgSend(&dir.Msg{Data: Pad(a[6:], 2)}, h.w.Enc)))
+		case a == "sendbad":
+			set(ErrClass(stream.MsgSend(&dir.Msg{Data: Pad("bad"+strconv.FormatUint(sid, 10), 1)}, h.w.Enc)))
 		case a == "closesend":
 			set(ErrClass(stream.CloseSend()))
 		case a == "retnil":
@@ -373,6 +377,9 @@ func (w *World) Apply(st Stim) bool {
 			w.D.Go(st.T, func() string { return ErrClass(s.MsgSend(&dir.Msg{Data: Pad(tag, 1)}, w.Enc)) })
 		case "Send2":
 			w.D.Go(st.T, func() string { return ErrClass(s.MsgSend(&dir.Msg{Data: Pad(tag, 2)}, w.Enc)) })
+		case "SendBad":
+			bad := fmt.Sprintf("bad%d", st.R)
+			w.D.Go(st.T, func() string { return ErrClass(s.MsgSend(&dir.Msg{Data: Pad(bad, 1)}, w.Enc)) })
 		case "Recv":
 			w.D.Go(st.T, func() string {
 				var m dir.Msg
